@@ -278,7 +278,12 @@ def root_cases(rng, tier):
     return terms, metas
 
 
-def layout_subprocess_runs(layouts):
+# spellings argparse accepts for "-c ovr.toml" (each equivalent, by argparse's rules, to the canonical -c ovr.toml [+ -H / -T / -r])
+OVERRIDE_SPELLINGS = [["-c", "ovr.toml"], ["--config", "ovr.toml"], ["--config=ovr.toml"], ["-covr.toml"], ["-Hc", "ovr.toml"], ["-HTc", "ovr.toml"],
+                      ["-THc", "ovr.toml"], ["-Hcovr.toml"], ["--conf", "ovr.toml"], ["-H", "-c", "ovr.toml", "-T"], ["-T", "--config", "ovr.toml"]]
+
+
+def layout_subprocess_runs(layouts, spellings=None):
     """Real runs of the command line in the fixed layouts (and in any layout the in-process suite flagged)."""
     out = []
     with D.Scratch() as root:
@@ -287,6 +292,8 @@ def layout_subprocess_runs(layouts):
             base.mkdir()
             dirs, fns = materialise_layout(base, markers)
             argv = (["-c", "ovr.toml"] if override == "exists" else ["-c", "nope.toml"] if override == "missing" else []) + ["-o", "results", "target.py"]
+            if spellings is not None:
+                argv = [*spellings[i], "-o", "results", "target.py"]
             r = D.run_rattr(dirs[0], argv)
             try:
                 present = sorted(json.loads(r["stdout"]))
@@ -388,6 +395,10 @@ def main(tier: str) -> int:
     layouts = gen_layouts(random.Random(C.SEED), tier)
     e2e_layouts = [l for l in layouts if l[0] in FIXED_LAYOUTS] + [l for l in layouts if l[0] in flagged and l[0] not in FIXED_LAYOUTS][:6]
     e2e = layout_subprocess_runs(e2e_layouts)
+    # every spelling of the override option, in a configured project (the canonical spelling is the model's; argparse's
+    # abbreviation / clustering rules make the others equivalent to it)
+    configured = [("IsFile", "IsDir", "Absent", "Absent")]
+    e2e += layout_subprocess_runs([(f"override spelled {' '.join(sp)}", configured, "exists") for sp in OVERRIDE_SPELLINGS], spellings=OVERRIDE_SPELLINGS)
     e2e_codes = C.coq_eval_codes("c20e2e", ROOT_HEADER, "root_case", "root_code", [t for t, _ in e2e], shard=400) if root_model_ok else [0] * len(e2e)
     e2e_fail = [m for c, (_, m) in zip(e2e_codes, e2e) if c & 2]
     for m in e2e_fail[:3]:
@@ -423,7 +434,7 @@ def main(tier: str) -> int:
         "rule": "per option every {absent, valid..., invalid...} TOML value x every {absent, valid, invalid} CLI value (exhaustive), every pair of options over {absent, valid, invalid} x {absent, valid}, "
                 "a seeded sample of the full product with unknown keys and shuffled order; 7 real subprocess scenarios with pyproject.toml and -c override files; distinct = distinct (toml, cli); "
                 "TOML selection: generated directory trees (depth 1-4, each level with pyproject.toml / .git / .hg / .svn absent, a file or a directory, -c absent / existing / missing) in-process against model/ProjRoot.v, "
-                "12 fixed layouts (worktree, nested clone, marker files, subprojects) as real runs",
+                "12 fixed layouts (worktree, nested clone, marker files, subprojects) and 11 spellings of the override option (long, abbreviated, =, glued, clustered with -H / -T) as real runs",
         "traces_validated_against_impl": len(terms), "disagreements_checked": len(corr_fail), "spec_failures_new": len(new),
         "spec_failures_in_known_classes": len(spec_fail) - len(new), "subprocess_scenarios": len(sub), "subprocess_failures": len(sub_fail),
         "rejected_cases": sum(1 for m in metas if m["rattr_namespace"] is None),
